@@ -31,9 +31,26 @@ def _srepr(v):
         return f"<int of {v.bit_length()} bits>"
 
 
+def _nest(depth, wrap):
+    s = {"type": "string"}
+    for _ in range(depth):
+        s = wrap(s)
+    return s
+
+
 def atom_schema(atom, arg):
     nm = NAMES.get(arg, "x")
     return {
+        "patterns_inline_flag": lambda: {"patternProperties": {"^a": {"type": "integer"}, "(?i)^B": {"type": "string"}},
+                                         "properties": {"a": {}}},
+        "patterns_same_group": lambda: {"patternProperties": {"^(?P<x>a)": {}, "^(?P<x>b)": {"type": "integer"}}},
+        "deep_items": lambda: _nest(600, lambda s: {"items": s}),
+        "deep_not": lambda: _nest(600, lambda s: {"not": s}),
+        "deep_anyOf": lambda: _nest(600, lambda s: {"anyOf": [s, {"type": "null"}]}),
+        "deep_properties": lambda: _nest(600, lambda s: {"properties": {"a": s}}),
+        "deep_additional": lambda: _nest(600, lambda s: {"additionalProperties": s}),
+        "deep_dependencies": lambda: _nest(600, lambda s: {"dependencies": {"a": s}}),
+        "deep_within_budget": lambda: _nest(40, lambda s: {"items": [{"not": s}]}),
         "multipleOf": lambda: {"multipleOf": MULTS[arg]},
         "type_number": lambda: {"type": "number"},
         "type_integer": lambda: {"type": "integer"},
@@ -111,7 +128,8 @@ def observe(st):
     try:
         schema = atom_schema(case["atom"], case["arg"])
         try:
-            el = parse_element(drive.label(schema))
+            # the deep schemas declare no object (nothing to label; the labeller is recursive)
+            el = parse_element(schema if case["atom"].startswith("deep_") else drive.label(schema))
             ob["parse"] = "ok"
         except FeatureNotImplementedError:
             ob["parse"] = "notimpl"
@@ -300,7 +318,7 @@ def collect(rep, tier, pid="C10"):
         return dict(extreme_states=res.distinct, extreme_cases=n, extreme_tlc_states=adj)
     for si, (st, ob) in enumerate(zip(states, obs)):
         c = st["case"]
-        real = ob["parse"] if ob["parse"] != "ok" else ob["call"]
+        real = (ob["parse"] or "none") if ob["parse"] != "ok" else ob["call"]
         pred_bad = st["predicted"] != "fine"
         real_bad = not ob["terminated"] or real.startswith("other")
         if pred_bad and real == st["predicted"]:
@@ -313,7 +331,7 @@ def collect(rep, tier, pid="C10"):
         eid = len(index) + 1
         index[eid] = si
         events.append((eid, '[id |-> %d, p |-> "C10", parse |-> %s, call |-> %s, terminated |-> %s]'
-                       % (eid, codec.tla_str(ob["parse"]), codec.tla_str(ob["call"]),
+                       % (eid, codec.tla_str(ob["parse"] or "none"), codec.tla_str(ob["call"]),
                           "TRUE" if ob["terminated"] else "FALSE")))
     adj = 0
     if events:
@@ -328,7 +346,7 @@ def collect(rep, tier, pid="C10"):
             si = index[l["reject"]]
             st, ob = states[si], obs[si]
             c = st["case"]
-            real = ob["parse"] if ob["parse"] != "ok" else ob["call"]
+            real = (ob["parse"] or "none") if ob["parse"] != "ok" else ob["call"]
             what = "does not terminate within 20 s" if not ob["terminated"] else f"{real} escapes ({ob.get('msg', '')})"
             where = "parse_element" if ob["parse"] != "ok" else "call"
             rep.violation(("C10", "extreme", c["atom"] if where == "call" else "parse:" + c["atom"], real.split(":")[-1]),
